@@ -336,3 +336,15 @@ class Ripemd160:
         want = Rope([(st[k], 4, True) for k in range(5)])
         res = L.simplify_native(out.value)
         yield "ensures.output_is_le32_of_final_state", isinstance(res, Rope) and len(res) == 20 and eq(res, want)
+
+
+class CanaryRol(Rol):
+    """must FAIL: spec rotating by i + 1"""
+    props = ("C05",)
+
+    def post(self, c, I, out):
+        if out.returned and isinstance(out.value, LB) and I.i < 31:
+            yield "canary.rot_plus_one", out.value.v == rotl(I.x.v, I.i + 1)
+
+
+CANARIES += [CanaryRol()]
